@@ -25,6 +25,7 @@ func Generate(prop string, seed uint64, tier string) *Spec {
 	case "C05":
 		g.history(spec)
 	case "C06":
+		g.cat = true
 		switch g.k.Intn(10) {
 		case 0, 1, 2, 3:
 			g.sharedExpr(spec, false)
@@ -76,6 +77,7 @@ type gen struct {
 	w, f, k *engine.RNG
 	pg      *work.Gen
 	tier    string
+	cat     bool // draw a quarter of the programs from the catalogue
 }
 
 func (g *gen) thorough() bool { return g.tier == "thorough" }
@@ -99,6 +101,11 @@ func (g *gen) concurrentStrategy() StratSpec {
 
 func (g *gen) program(family string) work.Program {
 	if family == "" && g.w.Chance(1, 6) {
+		return work.Catalogue[g.w.Intn(len(work.Catalogue))]
+	}
+	if g.cat && family != "outside" && g.w.Chance(1, 4) {
+		// concurrent workloads meet on the catalogue too: the same function
+		// under different pictures / options / patterns in different tasks
 		return work.Catalogue[g.w.Intn(len(work.Catalogue))]
 	}
 	return g.pg.Program(family, g.w.Range(0, 3))
